@@ -285,7 +285,8 @@ func genTreapLine(r *core.Rand, kind string, nops int) (string, bool) {
 		case c < 14:
 			switch k := r.Intn(8); {
 			case k < 6:
-				ops = append(ops, fmt.Sprintf("%s:%d", []string{"l", "s", "e"}[k%3], rv()))
+				// Size() is an internal memory estimate and is not observed
+				ops = append(ops, fmt.Sprintf("%s:%d", []string{"l", "e"}[k%2], rv()))
 			case k < 7 || kind == "imm":
 				ops = append(ops, fmt.Sprintf("E:%d:%d", rv(), 1+r.Intn(4)))
 			default:
